@@ -298,6 +298,20 @@ where
     Err(p) => Err(p),
   }
 }
+fn nuniq_bytes<T: Idx>(m: &Moc) -> Result<Vec<u8>, String>
+where
+  Hpx<T>: Inst<T>,
+{
+  let mm: RangeMOC<T, Hpx<T>> = to_range_moc(m);
+  match catch(move || {
+    let mut b = Vec::new();
+    hpx_cells_to_fits_ivoa((&mm).into_range_moc_iter().cells(), None, None, &mut b).map_err(|e| format!("write error {:?}", e))?;
+    Ok(b)
+  }) {
+    Ok(x) => x,
+    Err(p) => Err(p),
+  }
+}
 fn conv<U: Idx, T: Idx>(t: MocType<U, Hpx<U>, Cursor<Vec<u8>>>) -> Result<RangeMOC<T, Hpx<T>>, String>
 where
   Hpx<T>: Inst<T>,
@@ -392,6 +406,25 @@ pub fn check_moc(rep: &mut Report, orc: &mut Oracle, m: &Moc) -> bool {
     }
   }
   if m.q == Q::S {
+    // NUNIQ: whole file against Model/FitsCodec.v fits_write_nuniq, reader beside the model's
+    let wr = match m.w {
+      16 => nuniq_bytes::<u16>(m),
+      32 => nuniq_bytes::<u32>(m),
+      _ => nuniq_bytes::<u64>(m),
+    };
+    if let Ok(bytes) = wr {
+      rep.evaluations += 1;
+      rep.count("fits-nuniq-file-exact");
+      let req = format!("FITSWN {} {} {}", m.w, m.d, ranges_str(&m.r));
+      let model_file = orc.ask(&req);
+      let hx: String = bytes.iter().map(|b| format!("{:02x}", b)).collect();
+      if model_file != format!("OK {}", hx) {
+        ok = false;
+        let pos = model_file.bytes().skip(3).zip(hx.bytes()).position(|(a, b)| a != b).unwrap_or(0) / 2;
+        rep.corr_break("the NUNIQ FITS file written differs from the byte-level model", &format!("{} # {}", req, case), &format!("{} bytes, first difference at byte {}", bytes.len(), pos), &format!("{} bytes", model_file.len().saturating_sub(3) / 2), "src/deser/fits hpx_cells_to_fits_ivoa == Model/FitsCodec.v fits_write_nuniq");
+      }
+      ok &= fitsx::compare_reader_fits(rep, orc, &bytes, "nuniq-written", "none");
+    }
     rep.evaluations += 1;
     rep.count("fmt:fits-nuniq");
     let r = match m.w {
